@@ -47,7 +47,8 @@ ASSUMPTIONS = [
     "the iteration order of PhylogeneticDistanceMatrix._mapped_taxa (a set of id-hashed taxa = order of the NJ/UPGMA node "
     "pool and of the CSV rows) is treated as environment: the harness fixes it through a set subclass with a defined "
     "iteration order and enumerates it (all orders n <= 4; as-is, reversed and rotations above)",
-    "UPGMA on ultrametric input is driven with distinct node heights (no ties); the textbook-definition layer on "
+    "UPGMA on ultrametric input is driven with distinct node heights (no ties), including one cherry at height zero "
+    "(pendant lengths 0, 0.0 or missing: a distance of exactly 0.0 that is the unique minimum); the textbook-definition layer on "
     "non-ultrametric input skips inputs in which the exact (Fraction) reference meets a tie",
     "CSV round trips are written with is_normalize_by_tree_size=False (the signature default of write_csv divides by the "
     "tree length; that default is not judged)",
@@ -72,11 +73,11 @@ def bounds(tier):
         return {"max_leaves": 5, "exhaustive_lengths_up_to": 4, "subset_filters_up_to": 5,
                 "nj_all_12_lengths_up_to": 5, "nj_pattern_leaves": 6, "upgma_ranked_up_to": 6,
                 "upgma_definition_up_to": 4, "mrca_start_node_up_to": 4, "mrca_ns_configs": MRCA_NS,
-                "double_unifurcations_up_to": 3}
+                "double_unifurcations_up_to": 3, "nj_zero_pendant_up_to": 5, "upgma_zero_cherry_all_orders_up_to": 5}
     return {"max_leaves": 6, "exhaustive_lengths_up_to": 4, "subset_filters_up_to": 6,
             "nj_all_12_lengths_up_to": 6, "nj_pattern_leaves": 7, "upgma_ranked_up_to": 7,
             "upgma_definition_up_to": 5, "mrca_start_node_up_to": 5, "mrca_ns_configs": MRCA_NS,
-            "double_unifurcations_up_to": 4}
+            "double_unifurcations_up_to": 4, "nj_zero_pendant_up_to": 6, "upgma_zero_cherry_all_orders_up_to": 5}
 
 
 MRCA_NS = ["exact", "extra_low", "removed_low", "reversed", "extra_high"]
@@ -641,14 +642,32 @@ def force_order(V, pdm, order, where):
     return True
 
 
-def pool_orders(labels, mode):
+def pool_orders(labels, mode, pair=None):
+    """orders of the node pool.  "all": every permutation; "basic": as-is and reversed; "rot": plus
+    every rotation; "pair": "rot" plus orders that put the two taxa of `pair` first, in the middle and
+    last of the pair scan (which runs over pool index pairs i < j in lexicographic order)."""
     labels = list(labels)
     if mode == "all":
         return [list(p) for p in itertools.permutations(labels)]
     out = [labels, labels[::-1]]
-    if mode == "rot":
+    if mode in ("rot", "pair"):
         for k in range(1, len(labels)):
             out.append(labels[k:] + labels[:k])
+    if mode == "pair" and pair:
+        x, y = pair
+        rest = [l for l in labels if l not in pair]
+        h = len(rest) // 2
+        for a, b2 in ((x, y), (y, x)):
+            out.append([a, b2] + rest)                                  # scanned first
+            out.append(rest + [a, b2])                                  # scanned last
+            out.append(rest[:1] + [a] + rest[1:h + 1] + [b2] + rest[h + 1:])   # somewhere in the middle
+            out.append([a] + rest + [b2])                               # end of the first row
+        seen, uniq = set(), []
+        for o in out:
+            if tuple(o) not in seen:
+                seen.add(tuple(o))
+                uniq.append(o)
+        out = uniq
     return out
 
 
@@ -823,11 +842,18 @@ def judge_upgma(V, t2, tag, labels, want_heights, exact, text):
         V("upgma_tree|rooting|%s" % tag, "UPGMA tree is_rooted=%r (documented: rooted)" % (r2,))
 
 
-def ultrametric_snapshot(shape, ranks, hpat, labels=U.LABELS):
-    """ranks: rank (1..m) per internal node in pre-order; height of rank r from pattern"""
+ZERO_REPS = {"0": 0, "0.0": 0.0, "None": None}
+
+
+def ultrametric_snapshot(shape, ranks, hpat, labels=U.LABELS, zero=None):
+    """ranks: rank (1..m) per internal node in pre-order; height of rank r from pattern.
+    zero in ZERO_REPS: the rank-1 node (always a cherry; every cherry is the rank-1 node of some
+    ranking) sits at height zero, its two pendant lengths are written 0, 0.0 or None (missing)."""
     it = iter(ranks)
 
     def H(r):
+        if zero is not None and r == 1:
+            return 0
         if hpat == "int":
             return r
         if hpat == "pow2":
@@ -841,11 +867,12 @@ def ultrametric_snapshot(shape, ranks, hpat, labels=U.LABELS):
     def rec(s):
         if isinstance(s, int):
             return 0, (labels[s], None, None, ())
-        h = H(next(it))
+        r = next(it)
+        h = H(r)
         kids = []
         for c in s:
             hc, k = rec(c)
-            kids.append((k[0], k[1], h - hc, k[3]))
+            kids.append((k[0], k[1], (ZERO_REPS[zero] if (zero is not None and r == 1) else h - hc), k[3]))
         return h, (None, None, None, tuple(kids))
     h, root = rec(shape)
     return root
@@ -871,7 +898,9 @@ def check_upgma(case, ctx):
     hpat = case["hpat"]
     exact = hpat != NONDYADIC
     V = Viol(ctx, case)
-    sn = ultrametric_snapshot(shape, case["ranks"], hpat)
+    zero = case.get("zero")
+    ztag = "|zero-distance-cherry" if zero is not None else ""
+    sn = ultrametric_snapshot(shape, case["ranks"], hpat, zero=zero)
     ns, bit = build.make_namespace(labels, "exact")
     tree = build.build_tree((True, sn), ns)
     R = RefIndex(sn)
@@ -885,25 +914,31 @@ def check_upgma(case, ctx):
     if not ok:
         return 1
     refd = dict(((a, b2), R.between(R.leafpath[a], R.leafpath[b2])[0]) for a in labels for b2 in labels)
-    for order in pool_orders(labels, case.get("orders", "basic")):
+    pair = None
+    if zero is not None:
+        zc = [cl for cl, h in want.items() if len(cl) == 2 and h == 0]
+        if len(zc) != 1:
+            raise AssertionError("harness: expected exactly one zero-height cherry in %s" % text)
+        pair = sorted(zc[0])
+    for order in pool_orders(labels, case.get("orders", "basic"), pair):
         if not force_order(V, pdm, order, "from_tree"):
             break
         q += 1
         ok, t2 = call(V, "pdm.upgma_tree", pdm.upgma_tree)
         if ok:
-            judge_upgma(V, t2, "direct", labels, want, exact, text)
+            judge_upgma(V, t2, "direct" + ztag, labels, want, exact, text)
     for ri in case.get("csv", []):
         route = CSV_ROUTES[ri]
         p2 = via_csv(V, pdm, ns, route, labels)
         if p2 is None:
             continue
         q += check_matrix_readback(V, p2, route[0], labels, refd, True, text)
-        for order in pool_orders(labels, "basic"):
+        for order in pool_orders(labels, "pair" if pair else "basic", pair):
             force_order(V, p2, order, "from_csv")
             q += 1
             ok, t2 = call(V, "pdm.upgma_tree|%s" % route[0], p2.upgma_tree)
             if ok:
-                judge_upgma(V, t2, route[0], labels, want, exact, text)
+                judge_upgma(V, t2, route[0] + ztag, labels, want, exact, text)
     return q
 
 
@@ -1147,13 +1182,18 @@ def nj_lengths(shape, n, b):
         for ph in (0, 1):
             out.append(("long-short-%d" % ph, assign([8 if (x + ph) % 2 else 1 for x in range(len(leaf_idx))], [1] * len(internal)), False, [], "basic"))
         out.append(("long-short-3", assign([1 if x % 3 == 2 else 8 for x in range(len(leaf_idx))], [1] * len(internal)), False, [], "basic"))
-    # zero-length pendant edges (internal lengths stay positive)
-    if n <= 4:
-        for pa in itertools.product((0, 1), repeat=len(leaf_idx)):
+    # zero-length and missing pendant edges (internal lengths stay positive): distances of exactly 0.0
+    if n <= b["nj_zero_pendant_up_to"]:
+        for pi, pa in enumerate(itertools.product((0, 1), repeat=len(leaf_idx))):
             if 0 not in pa:
                 continue
-            for ia in itertools.product((1, 2), repeat=len(internal)):
-                out.append(("zero-pendant", assign(pa, ia), False, [], "all"))
+            for ii, ia in enumerate(itertools.product((1, 2), repeat=len(internal))):
+                orders = "all" if n <= 4 else ("rot" if (pi + ii) % 8 == 3 else "basic")
+                out.append(("zero-pendant", assign(pa, ia), False, [0] if (ii == 0 and pi % 4 == 2) else [], orders))
+                if ii == 0:
+                    out.append(("missing-pendant", assign([None if v == 0 else v for v in pa], ia), False, [], orders))
+                if ii == 1 or not internal:
+                    out.append(("zero-float-pendant", assign([0.0 if v == 0 else v for v in pa], ia), False, [], orders))
     return out
 
 
@@ -1200,6 +1240,20 @@ def run_upgma(chunk, ctx):
                 ctx.count("upgma_ranked_trees")
                 ctx.count("upgma_runs", len(pool_orders(U.LABELS[:n], orders)) + 2 * len(csv))
                 ctx.count("csv_round_trips", len(csv))
+            # exactly one cherry at height zero (patristic distance exactly 0.0, a unique minimum): the rank-1
+            # node of every ranking = every choice of the cherry x every ranking of the other nodes
+            b = bounds(chunk["tier"])
+            for zero, hpat in (("0", "int"), ("0.0", "pow2"), ("None", "quarter"), ("None", "int")):
+                if n > b["upgma_zero_cherry_all_orders_up_to"] and hpat != "int":
+                    continue
+                orders = "all" if n <= b["upgma_zero_cherry_all_orders_up_to"] else "pair"
+                csv = [0] if (zero == "0" and (ri == 0 or n <= 4)) else []
+                case = {"kind": "upgma", "n": n, "shape": shape, "ranks": ranks, "hpat": hpat, "csv": csv, "orders": orders, "zero": zero}
+                q = check_upgma(case, ctx)
+                ctx.case(("upgma0", shape, tuple(ranks), hpat, zero), n >= 3, n=q)
+                ctx.count("upgma_zero_cherry_trees")
+                ctx.count("upgma_runs", q - 1)
+                ctx.count("csv_round_trips", len(csv))
         ctx.sample({"layer": "UPGMA", "generating_tree": ref.to_newick(ultrametric_snapshot(shape, rks[0], "int")), "rankings": len(rks)}, 1)
     return None
 
@@ -1211,7 +1265,10 @@ def run_upgmadef(chunk, ctx):
         shape = shapes[si]
         k = nnodes(shape)
         alpha = (1, 2, 3) if n <= 4 else (1, 3)
-        for a in itertools.product(alpha, repeat=k - 1):
+        todo = list(itertools.product(alpha, repeat=k - 1))
+        # zero lengths (distances of exactly 0.0); inputs in which the exact reference meets a tie are skipped as always
+        todo += [a for a in itertools.product((0, 1, 3) if n <= 4 else (0, 2), repeat=k - 1) if 0 in a]
+        for a in todo:
             lens = [None] + list(a)
             case = {"kind": "upgmadef", "n": n, "shape": shape, "lens": lens, "rooted": True}
             q = check_upgma_def(case, ctx)
